@@ -23,6 +23,7 @@
 #include "tgsw_functions.h"
 
 #include "ro_mem.h"
+#include "guard_new.h"
 typedef long long ll;
 typedef std::vector<ll> V;
 
@@ -79,12 +80,12 @@ static void bound_msf(const V &a, V &r) {
 // writes is seen as a changed sentinel ("OOB" result), whatever the allocator does
 struct Guarded {
     enum { G = 24 };
-    int32_t *base; int n;
-    Guarded(int n) : n(n) { base = new int32_t[n + 2 * G]; for (int i = 0; i < n + 2 * G; i++) base[i] = sentinel(i); }
+    int32_t *base; int n, gb;      // gb: sentinels behind the data; none while arrays are placed at page ends (guard_new.h): the data then ends where the array ends
+    Guarded(int n) : n(n), gb(vguard::on ? 0 : G) { base = new int32_t[n + G + gb]; for (int i = 0; i < n + G + gb; i++) base[i] = sentinel(i); }
     ~Guarded() { delete[] base; }
     static int32_t sentinel(int i) { return (int32_t) (0x5EED0000u + 977u * (unsigned) i); }
     int32_t *data() { return base + G; }
-    bool intact() const { for (int i = 0; i < G; i++) if (base[i] != sentinel(i) || base[n + G + i] != sentinel(n + G + i)) return false; return true; }
+    bool intact() const { for (int i = 0; i < G; i++) if (base[i] != sentinel(i) || (i < gb && base[n + G + i] != sentinel(n + G + i))) return false; return true; }
 };
 static void op_lwephase(const V &a, V &r) {  // n key(n) a(n) b
     int n = a[0];
@@ -431,7 +432,8 @@ int main(int argc, char **argv) {
         V r;
         if (g_amb_flags) feraiseexcept(FE_ALL_EXCEPT);
         if (g_amb_errno) errno = g_amb_errno;
-        if (op == "ambient") {   // sticky per-thread state left behind by unrelated code, re-established before every following call: errno value (0 = leave alone), 1 = all floating-point exception flags raised
+        if (op == "guard") { vguard::on = a.empty() ? 0 : (int) a[0]; r.push_back(1); r.push_back(vguard::served); }   // every array allocated from here on ends at an inaccessible page (guard_new.h)
+        else if (op == "ambient") {   // sticky per-thread state left behind by unrelated code, re-established before every following call: errno value (0 = leave alone), 1 = all floating-point exception flags raised
             g_amb_errno = a.size() > 0 ? (int) a[0] : 0; g_amb_flags = a.size() > 1 ? (int) a[1] : 0;
             if (!g_amb_flags) feclearexcept(FE_ALL_EXCEPT); if (!g_amb_errno) errno = 0; r.push_back(1); }
         else if (op == "fenv") {   // rounding direction of the floating-point environment for everything that follows: 0 nearest, 1 upward, 2 downward, 3 toward zero
